@@ -135,7 +135,7 @@ Print Assumptions C06_ex_no_early_print.
 (* ==========================================================================================
    WHOLE-PROGRAM COMPOSITION (work package H, schedule part; the order part, the composition
    theorem C01_program_correct and the adapter lemmas are in Props/C01.v).
-   [program_m cap bs sched o files] (Model/Program.v) runs the coordinator transition system above
+   [program_m cap bs rps sched o files] (Model/Program.v; rps: the reader parameters of the text workers) runs the coordinator transition system above
    under the event list [sched] on the datums the block-wise readers and the search loop produce
    for the files, and prints through the printer / summary models.
    ========================================================================================== *)
@@ -144,20 +144,20 @@ From S4.Model Require Import Program.
 From S4.Proofs Require Import ProgramProofs ProgramExamples.
 
 (* schedule independence of the WHOLE output: stdout items and summary totals *)
-Theorem C06_program_schedule_independent : forall O cap bs sched1 sched2 o files,
-  (0 < bs)%N -> domain O o files -> gate_passed O bs files ->
+Theorem C06_program_schedule_independent : forall O cap bs rps sched1 sched2 o files,
+  (0 < bs)%N -> domain O o files -> gate_passed O bs o files ->
   complete O cap o files sched1 -> complete O cap o files sched2 ->
-  program_m O cap bs sched1 o files = program_m O cap bs sched2 o files.
+  program_m O cap bs rps sched1 o files = program_m O cap bs rps sched2 o files.
 Proof. exact program_schedule_independent. Qed.
 Print Assumptions C06_program_schedule_independent.
 
 (* under EVERY maximal execution (any interleaving, no fairness assumption, any capacity >= 1) the
    whole program prints the specification *)
-Theorem C06_program_correct_maximal : forall O cap bs sched s' o files,
-  1 <= cap -> (0 < bs)%N -> domain O o files -> gate_passed O bs files ->
+Theorem C06_program_correct_maximal : forall O cap bs rps sched s' o files,
+  1 <= cap -> (0 < bs)%N -> domain O o files -> gate_passed O bs o files ->
   run cap (init (tags_of (spec_sources O o files))) sched = Some s' ->
   (forall e, step cap s' e = None) ->
-  program_m O cap bs sched o files = POk (program_spec O o files).
+  program_m O cap bs rps sched o files = POk (program_spec O o files).
 Proof. exact program_correct_maximal. Qed.
 Print Assumptions C06_program_correct_maximal.
 
@@ -176,13 +176,13 @@ Print Assumptions C06_maximal_schedule_complete.
 
 (* an event list that is not an execution, or stops early, is reported — not accepted *)
 Example C06_program_example_incomplete :
-  program_m O_ex 1 3 (firstn 10 sched_lazy) opts_ex files_ex = PNotFinal /\
-  program_m O_ex 1 3 [Print] opts_ex files_ex = PSchedule.
+  program_m O_ex 1 3 rps_ex (firstn 10 sched_lazy) opts_ex files_ex = PNotFinal /\
+  program_m O_ex 1 3 rps_ex [Print] opts_ex files_ex = PSchedule.
 Proof. exact ex_incomplete. Qed.
 Print Assumptions C06_program_example_incomplete.
 
 Example C06_program_example_two_schedules :
-  program_m O_ex 1 3 sched_lazy opts_ex files_ex = POk (program_spec O_ex opts_ex files_ex) /\
-  program_m O_ex 5 64 sched_eager opts_ex files_ex = POk (program_spec O_ex opts_ex files_ex).
+  program_m O_ex 1 3 rps_ex sched_lazy opts_ex files_ex = POk (program_spec O_ex opts_ex files_ex) /\
+  program_m O_ex 5 64 rps_ex sched_eager opts_ex files_ex = POk (program_spec O_ex opts_ex files_ex).
 Proof. exact ex_program_by_theorem. Qed.
 Print Assumptions C06_program_example_two_schedules.
